@@ -49,14 +49,46 @@ func genNaluData(r *h.Rand, max int) []byte {
 	return r.Bytes(n)
 }
 
+// Long-lived values that every decode of this run is repeated into: a REUSED NAL unit, record or sample must come out
+// exactly as a fresh one (F30: a reused sample or record accumulated the NAL units of earlier decodes).
+var (
+	avcReNalu   = avc.NewNALU()
+	avcReRec    = avc.NewAVCDecoderConfigurationRecord()
+	avcReSample = map[int]*avc.AVCSample{}
+	avcReuseBad [][3]string
+)
+
+func avcReuseNote(what string, b []byte, fresh, reused string) {
+	if fresh != reused && len(avcReuseBad) < 3 {
+		avcReuseBad = append(avcReuseBad, [3]string{what + " " + h.Trunc(h.Hex(b), 300) + " decoded into a value that earlier decodes had filled", h.Trunc(reused, 400), h.Trunc(fresh, 400)})
+	}
+}
+
+func avcReuseReport(c *h.Ctx) {
+	for _, m := range avcReuseBad {
+		c.Hold(false, "decode.reused_value_equals_fresh", m[0], m[1], m[2])
+	}
+	avcReuseBad = nil
+}
+
 func avcNaluDec(b []byte) string {
-	return h.Safe(func() string {
-		n := avc.NewNALU()
-		if err := n.UnmarshalBinary(b); err != nil {
-			return "err"
-		}
-		return "ok " + naluStr(n)
-	})
+	dec := func(n *avc.NALU) string {
+		return h.Safe(func() string {
+			if err := n.UnmarshalBinary(b); err != nil {
+				return "err"
+			}
+			return "ok " + naluStr(n)
+		})
+	}
+	fresh := dec(avc.NewNALU())
+	avcReuseNote("NAL unit", b, fresh, dec(avcReNalu))
+	return fresh
+}
+
+func avcRecStr(r *avc.AVCDecoderConfigurationRecord) string {
+	v, c := avc.VerifRecordPrivate(r)
+	return fmt.Sprintf("ok %d %d %d %d %d %s %s", v, uint16(r.AVCProfileIndication), c,
+		uint8(r.AVCLevelIndication), r.LengthSizeMinusOne, nalusStr(r.SequenceParameterSetNALUnits), nalusStr(r.PictureParameterSetNALUnits))
 }
 
 func avcRecDec(b []byte) (string, *avc.AVCDecoderConfigurationRecord) {
@@ -67,25 +99,38 @@ func avcRecDec(b []byte) (string, *avc.AVCDecoderConfigurationRecord) {
 			return "err"
 		}
 		rec = r
-		v, c := avc.VerifRecordPrivate(r)
-		return fmt.Sprintf("ok %d %d %d %d %d %s %s", v, uint16(r.AVCProfileIndication), c,
-			uint8(r.AVCLevelIndication), r.LengthSizeMinusOne, nalusStr(r.SequenceParameterSetNALUnits), nalusStr(r.PictureParameterSetNALUnits))
+		return avcRecStr(r)
 	})
+	re := h.Safe(func() string {
+		if err := avcReRec.UnmarshalBinary(b); err != nil {
+			return "err"
+		}
+		return avcRecStr(avcReRec)
+	})
+	avcReuseNote("configuration record", b, s, re)
 	return s, rec
 }
 
 func avcSampleDec(n int, b []byte) string {
-	return h.Safe(func() string {
-		s := avc.NewAVCSample(uint8(n - 1))
-		if err := s.UnmarshalBinary(b); err != nil {
-			return "err"
-		}
-		return "ok " + nalusStr(s.NALUs)
-	})
+	dec := func(s *avc.AVCSample) string {
+		return h.Safe(func() string {
+			if err := s.UnmarshalBinary(b); err != nil {
+				return "err"
+			}
+			return "ok " + nalusStr(s.NALUs)
+		})
+	}
+	fresh := dec(avc.NewAVCSample(uint8(n - 1)))
+	if avcReSample[n] == nil {
+		avcReSample[n] = avc.NewAVCSample(uint8(n - 1))
+	}
+	avcReuseNote(fmt.Sprintf("sample (length size %d)", n), b, fresh, dec(avcReSample[n]))
+	return fresh
 }
 
 func c12(c *h.Ctx) {
 	r := c.R
+	defer avcReuseReport(c)
 	// 1. all 256 NAL header bytes, exhaustively, with two payload shapes.
 	for b := 0; b < 256; b++ {
 		for _, tail := range [][]byte{nil, {0xaa, 0xbb}} {
